@@ -2,7 +2,7 @@ import SaModel.Lemmas.C12Basic
 /-
 C12 helpers, part 2: decoding commutes with slicing, every constructor.
 -/
-namespace SaModel.Props.C12
+namespace SaModel.Lemmas.C12
 open SaModel SaModel.Read SaModel.Spec
 
 theorem ids_sliceUFields : ∀ (fs : ArrUFields) (o l : Nat), ArrUFields.ids (sliceUFields fs o l) = ArrUFields.ids fs
@@ -162,4 +162,4 @@ theorem decodeVariantAt_slice : ∀ (fs : ArrUFields) (len pos o l i : Nat), i <
     simp only [sliceUFields, decodeVariantAt, decodeVariantAt_slice rest len pos o l i hi h hs.2]
 end
 
-end SaModel.Props.C12
+end SaModel.Lemmas.C12
